@@ -42,6 +42,21 @@ chk('C04', 'model_checking',
     'to_blob of the result reproduces the payload byte for byte (the one boolean byte may be normalised to 0/1).',
     'Trusted: clang lowering, lsx + runtime models, z3; identity zlib framing. Payloads longer than the bound are outside; the setter half is covered by C06 when claimed.',
     'bounded symbolic execution of LLVM IR (lsx, z3) + native replay', 'DESIGN.md §3 C04')
+chk('C13', 'model_checking',
+    'Symbolic execution of the real detect_schema (plain and "music"-prefixed), detect_is_database2, load_database and v1::engine_storage(directory) over an abstract sqlite3 model: '
+    'the stored (major, minor, patch) are three symbolic int32, so z3 decides the decision table for every triple, not a box; Information row counts, table_info rows (1.18.0 variant marker) '
+    'and every presence combination of dir / m.db / Database2/m.db are forked over. Asserted: supported triple -> its schema, everything else -> unsupported_database, '
+    'no/both layouts -> database_not_found, load_database reports the stored version and opens exactly the files of the detected layout.',
+    'Trusted: clang lowering (one clang-compat rewrite of the v1 engine_storage delegating constructor), lsx, the abstract sqlite3 model and stat() model, z3. Counterexamples are solver models over the model\'s '
+    'answers; they are not replayed against a real SQLite (stated). One listed known finding (3.0.0 accepted).',
+    'symbolic execution of LLVM IR (lsx, z3) over an abstract sqlite3/file-system model', 'DESIGN.md §3 C13')
+chk('C18', 'model_checking',
+    'Symbolic execution of the real track_table::add/get/update/remove/exists and all ~45 per-column getter/setter pairs together with the real sqlite_modern_cpp binders over a key/value model of the sqlite3 C API: '
+    'all 48 row fields symbolic (strings as symbolic bytes, so two swapped same-typed columns differ for every value), one run per schema column-list range and optional-presence pattern. '
+    'Asserted: get(add(r)) == r, get after update(r) == r (minus id and DB-maintained columns), getter == field, setter changes its column only, absent ids raise.',
+    'Trusted: clang lowering, lsx, lsx/models_sqlite.py (column lists and ? positions parsed from the real SQL text; a bound value is stored and returned unchanged; type affinity ignored), z3 and the integer encoding. '
+    'playlist_table / playlist_entity_table are outside (iostream date formatting, relational SQL). Counterexamples are not replayed against a real SQLite (stated).',
+    'symbolic execution of LLVM IR (lsx, z3) over a key/value sqlite3 model', 'DESIGN.md §3 C18')
 chk('C19', 'other',
     'SMT validity over the whole stated domain (sample count in [0, 2^62], every double rate in [0, 2^31]): the real functions are executed symbolically '
     '(loop-free, 3 paths) and each obligation of harness/h_wave.cpp is shown unsatisfiable by z3 - natively in BV/FP where that finishes (floor lemma, exactness), '
